@@ -3,6 +3,7 @@ package checks
 import (
 	"bytes"
 	"fmt"
+	"io"
 	"os"
 	"strings"
 
@@ -406,6 +407,21 @@ var subC11OSFile = &fw.Sub{Name: "c11.osfile", New: func() fw.Case { return &c11
 			if err != nil {
 				return fw.Failf("open", "%v", err)
 			}
+		case "regular-offset":
+			// the caller has read a header of the file already: the call processes what is left
+			tmp, err := os.CreateTemp(fw.WorkDir(), "c11-*.bcl")
+			if err != nil {
+				return fw.Failf("temp file", "%v", err)
+			}
+			defer os.Remove(tmp.Name())
+			header := "#!/usr/bin/env bcl )(\n\x00\x01 header the caller consumed \n"
+			tmp.WriteString(header + c.Src)
+			tmp.Close()
+			f, err = os.Open(tmp.Name())
+			if err != nil {
+				return fw.Failf("open", "%v", err)
+			}
+			f.Seek(int64(len(header)), io.SeekStart)
 		case "devnull":
 			var err error
 			if f, err = os.Open("/dev/null"); err != nil {
@@ -474,7 +490,7 @@ func init() {
 			"readers that block forever or return (0,nil) forever are outside the bound"},
 		Run: func(c *fw.Ctx) {
 			for _, src := range []string{"", "x", "print 1\n", "def c11target { x = 1 }\nbind c11target -> struct", "print @", "print )\nprint 2", strings.Repeat("print 1\n", 1000)} {
-				for _, kind := range []string{"regular", "pipe", "devnull"} {
+				for _, kind := range []string{"regular", "regular-offset", "pipe", "devnull"} {
 					for _, api := range []string{"parse", "interpret", "unmarshal"} {
 						c.Do(subC11OSFile, &c11OSFile{Kind: kind, Src: src, API: api})
 					}
